@@ -15,6 +15,8 @@ import (
 	"errors"
 	"fmt"
 	golog "log"
+	"sync"
+	"sync/atomic"
 	"testing"
 
 	kit "github.com/refraction-networking/conjure/internal/verifkit"
@@ -145,3 +147,101 @@ func TestVerifC19LivenessStats(t *testing.T) {
 	}
 	rec.Exhaustive(fmt.Sprintf("liveness configurations: %d durations × %d capacities for each of the two caches, each printed empty, populated and after clean-up", len(durations), len(caps)))
 }
+
+// TestVerifC19LivenessConcurrent – the liveness tester is reported by the station's statistics ticker
+// while ingest workers probe through it.  One reporter goroutine (PrintStats / PrintAndReset), several
+// probing goroutines (scripted probe, fresh addresses so both caches keep changing) and a cache
+// clean-up goroutine run concurrently for a fixed number of operations; own child process, -race.
+// Oracles: the process survives (orchestrator), no recoverable panic in a role, race reports in the
+// liveness statistics code (orchestrator's race filter).
+func TestVerifC19LivenessConcurrent(t *testing.T) {
+	rec := kit.NewRec("C19", "liveness-concurrent")
+	defer rec.Close()
+	var sink bytes.Buffer
+	var sinkMu sync.Mutex
+	logger := log.New(writerFunc(func(p []byte) (int, error) { sinkMu.Lock(); sink.Reset(); sinkMu.Unlock(); return len(p), nil }), "[STATS] ", golog.Ldate|golog.Lmicroseconds)
+	probes := kit.Tier(4000, 40000)
+	configs := []*Config{
+		nil,
+		{CacheDuration: "2.0h", CacheDurationNonLive: "5m"},
+		{CacheDuration: "2.0h"},
+		{CacheDurationNonLive: "90s", CacheCapacity: 3, CacheCapacityNonLive: 3},
+		{CacheDuration: "1ns", CacheCapacity: 1, CacheDurationNonLive: "0s", CacheCapacityNonLive: 100000},
+	}
+	for ci, c := range configs {
+		desc := fmt.Sprintf("%+v", c)
+		rec.Case(map[string]interface{}{"liveness_config": desc, "probes_per_goroutine": probes})
+		rec.Count("evaluations", 1)
+		tester, err := New(c)
+		if err != nil {
+			t.Fatalf("liveness.New(%s): %v", desc, err)
+		}
+		rec.Distinct("nontrivial", desc)
+		probe := func(address string) (bool, error) {
+			if len(address)%2 == 0 {
+				return true, ErrLiveHost
+			}
+			return false, NotLive
+		}
+		switch tt := tester.(type) {
+		case *CachedLivenessTester:
+			tt.phantomIsLive = probe
+		case *UncachedLivenessTester:
+			tt.phantomIsLive = probe
+		}
+		role := func(name string, f func()) {
+			if pn := kit.C19Try(f); pn != nil {
+				rec.Violation(pn.Sig("liveness-concurrent:"+name)+":"+verifC19LivenessMode(c), "the "+name+" role panicked while the others were running: "+pn.Val,
+					map[string]interface{}{"liveness_config": desc, "panic": pn})
+			}
+		}
+		var others, rep sync.WaitGroup
+		var done atomic.Bool
+		for g := 0; g < 4; g++ {
+			others.Add(1)
+			go func(g int) {
+				defer others.Done()
+				role("probe", func() {
+					for i := 0; i < probes; i++ {
+						_, _ = tester.PhantomIsLive(fmt.Sprintf("192.0.%d.%d", (i/250+g*7)%256, i%(250+g)), 443)
+					}
+				})
+			}(g)
+		}
+		if ct, ok := tester.(*CachedLivenessTester); ok {
+			others.Add(1)
+			go func() {
+				defer others.Done()
+				role("clear-expired", func() {
+					for i := 0; i < probes/20; i++ {
+						ct.ClearExpiredCache()
+					}
+				})
+			}()
+		}
+		reports := 0
+		rep.Add(1)
+		go func() {
+			defer rep.Done()
+			role("reporter", func() {
+				for !done.Load() || reports < 50 {
+					tester.PrintStats(logger)
+					tester.PrintAndReset(logger)
+					reports++
+				}
+			})
+		}()
+		others.Wait()
+		done.Store(true)
+		rep.Wait()
+		rec.Count("reports", reports)
+		rec.Count("probes", 4*probes)
+		if ci == 1 {
+			rec.Sample(map[string]interface{}{"liveness_config": desc, "reports": reports, "probes": 4 * probes})
+		}
+	}
+}
+
+type writerFunc func(p []byte) (int, error)
+
+func (f writerFunc) Write(p []byte) (int, error) { return f(p) }
